@@ -323,6 +323,22 @@ def shapes(tier):
         add(["u8", "str"], [[nm, '"a"']], must_accept="binding-name")
         add(["str", "u8"], [['"a" | "b"', nm]], f"*{nm} >= 2", must_accept="binding-name")
         add(["u8"], [[f"{nm} @ 1..=2"]], f"*{nm} == 2", must_accept="binding-name")
+    # a guard next to @-bindings and plain bindings it does not mention (they stay patterns all the same)
+    for g in ["*w >= 2", "*w == 1 || *w == 3"]:
+        add(["u8", "u8"], [["x @ 1..=2", "w"]], g)
+        add(["u8", "u8"], [["w", "x @ (0 | 3)"]], g)
+        add(["u8", "opt"], [["w", "Some(x @ 1..=2)"]], g)
+        add(["u8", "u8", "u8"], [["x @ 2..", "w", "y @ 0"]], g)
+    # guards containing || over disjunctions in which only a *later* alternative has eq!/ne!, and a
+    # guard variable bound by different arguments in different alternatives
+    for g in ["*{b} == 1 || *{b} == 2", "*{b} >= 2"]:
+        gb = g.replace("{b}", "w")
+        add(["u8", "u8"], [["w", "0"], ["w", "eq!(&3)"]], gb)
+        add(["u8", "u8"], [["w", "0"], ["w", "ne!(&3)"]], gb)
+        add(["u8", "u8"], [["w", "1..=2"], ["eq!(&0)", "w"]], gb)
+        add(["u8", "u8"], [["w", "_"], ["_", "w"]], gb)
+        add(["opt", "opt"], [["Some(w)", "_"], ["_", "Some(w)"]], gb)
+        add(["u8", "u8", "u8"], [["w", "0", "_"], ["0", "w", "ne!(&1)"], ["_", "0", "w"]], gb)
     # user-defined equality: asymmetric ==, and == against a string literal for a type that also
     # has an AsRef<str> view
     for a in ATOMS["asym"]:
@@ -585,7 +601,7 @@ def run(pid, tier, replay, start):
     cov = {
         "evaluations": len(kept),
         "distinct_nontrivial": len(set(i.key for i in kept if any(a != "_" for alt in i.meta["alts"] for a in alt))),
-        "rule": "catalogue-driven grammar of matching! invocations (see gen/c06.py): all sub-patterns of 11 argument types for 1 argument, all u8-binding patterns x 3 guards, type pairs x sub-pattern catalogues for 2 arguments, guard x eq!/ne! combinations, every pair of two-alternative disjunctions over 6 (quick: 4) sub-patterns with eq!/ne! in all positions, mixed literal kinds per position, 3 arguments, bindings named like the identifiers of the expansion (a<i>, l<k>, m<i>, reporter, mismatch) next to eq!/ne! and string literals, eq!/ne! mixed at one position across alternatives, eq!/ne! over a type with an asymmetric == and over a type that is both PartialEq<str> and AsRef<str>; each instance evaluated on every argument tuple of its finite domain in three evaluation modes against a native match; non-trivial = not all sub-patterns are wildcards; distinct = distinct invocation texts",
+        "rule": "catalogue-driven grammar of matching! invocations (see gen/c06.py): all sub-patterns of 11 argument types for 1 argument, all u8-binding patterns x 3 guards, type pairs x sub-pattern catalogues for 2 arguments, guard x eq!/ne! combinations, every pair of two-alternative disjunctions over 6 (quick: 4) sub-patterns with eq!/ne! in all positions, mixed literal kinds per position, 3 arguments, bindings named like the identifiers of the expansion (a<i>, l<k>, m<i>, reporter, mismatch) next to eq!/ne! and string literals, eq!/ne! mixed at one position across alternatives, guards next to @-bindings they do not mention, ||-guards over disjunctions whose later alternative compares, a guard variable bound by different arguments in different alternatives, eq!/ne! over a type with an asymmetric == and over a type that is both PartialEq<str> and AsRef<str>; each instance evaluated on every argument tuple of its finite domain in three evaluation modes against a native match; non-trivial = not all sub-patterns are wildcards; distinct = distinct invocation texts",
         "samples": [{"pattern": sample.key, "code": sample.code[:1500]}],
         "exhaustive": True,
         "generated": len(insts),
